@@ -249,8 +249,13 @@ class World:
         u = self.users[user]
         if self.reuse_repos and not fresh and user in self._repos:
             return self._repos[user]
+        cache = self.cache
+        if cache == 'per-user':
+            cache = os.path.join(self.scratch, f'cache-{user}')
+        elif cache == 'shared':
+            cache = os.path.join(self.scratch, 'cache-shared')
         repo = await rep.unlocked(self.backend(user), u.key, u.password,
-                                  concurrent=concurrent or self.concurrent, cache=self.cache)
+                                  concurrent=concurrent or self.concurrent, cache=cache)
         if self.reuse_repos and not fresh:
             self._repos[user] = repo
         return repo
